@@ -443,7 +443,7 @@ func (e *specEnv) indexExpr(n *EIndex) sv {
 	case *types.Slice:
 		i := e.term(e.eval(n.I, tInt), tInt)
 		k := u.keyM(tt.Elem())
-		return sv{Val: Val{t: fmt.Sprintf("(select (select %s (s_ref %s)) %s)", e.st.get(u, k), x.t, u.idxAdd("(s_off "+x.t+")", i)), typ: tt.Elem()}}
+		return sv{Val: Val{t: fmt.Sprintf("(select (select %s (s_ref %s)) %s)", e.st.get(u, k), x.t, u.elemIdx("(s_off "+x.t+")", i)), typ: tt.Elem()}}
 	case *types.Array:
 		i := e.term(e.eval(n.I, tInt), tInt)
 		return sv{Val: Val{t: "(select " + x.t + " " + i + ")", typ: tt.Elem()}}
